@@ -87,6 +87,9 @@ def run(ctx):
     ctx.rule("R13.c", "every consumer of the namespace goes through _cls_parameters / objects()", floor=6)
     ctx.rule("R13.e", "a class-level set goes through the Parameter that is installed in the class namespace at that moment: on the copy-on-write branch the copy is installed "
                       "(and the caches dropped) before its __set__(None, value) runs watchers", floor=1)
+    ctx.rule("R13.g", "value reporters agree with getattr: in Parameters.get_value_generator / inspect_value (behind values(), repr, pprint and serialization) the value of a parameter is "
+                      "obtained through getattr, the instance value store, or the class-level Parameter (self_.cls.param[...] / type(...).param[...]) -- never from `.default` / `._inspect` / "
+                      "`.__get__` of a Parameter object looked up in the instance namespace, which may be a per-instance copy still holding the default it was created with", floor=2)
     ctx.rule("R13.f", "the memo is never mutated in place (it is handed out by reference); invalidation rebinds it", floor=1)
     ctx.rule("R13.d", "the memo is computed by walking the class's own MRO base-first and reading each class' __dict__ (so it agrees with attribute lookup, also in diamonds); "
                       "it is never assembled from other classes' memos", floor=1)
@@ -232,3 +235,43 @@ def run(ctx):
 
     from checks.shared import memo_not_mutated_in_place
     memo_not_mutated_in_place(ctx, "R13.f")
+
+    # ---------------------------------------------------------------- R13.g
+    for fname in ("get_value_generator", "inspect_value"):
+        g = ctx.repo.func("param.parameterized.Parameters." + fname)
+        tainted = {}
+        for st in ast.walk(g.node):
+            if isinstance(st, ast.Assign) and len(st.targets) == 1 and isinstance(st.targets[0], ast.Name):
+                src = norm(st.value)
+                inst_lookup = False
+                for c in ast.walk(st.value):
+                    if isinstance(c, ast.Call) and isinstance(c.func, ast.Attribute) and c.func.attr == "objects":
+                        a0 = c.args[0] if c.args else next((k.value for k in c.keywords if k.arg == "instance"), None)
+                        base = norm(c.func.value)
+                        class_level = (isinstance(a0, ast.Constant) and a0.value is False) and True
+                        if not class_level and not base.startswith(("self_.cls.", "type(")):
+                            inst_lookup = True
+                    if isinstance(c, ast.Subscript) and norm(c.value) in ("self_", "cls_or_slf.param", "self_.self_or_cls.param", "self_.self.param"):
+                        inst_lookup = True
+                if inst_lookup:
+                    tainted[st.targets[0].id] = src
+        ctx.require(tainted, "Parameters.%s no longer looks the Parameter up in the (instance) namespace" % fname)
+        bad = []
+        gcfg = ctx.facts.cfg(g)
+        for n in gcfg.live_nodes():
+            if n.ast is None or n.kind not in ("stmt", "test"):
+                continue
+            for a in ast.walk(n.ast if n.kind == "test" or not isinstance(n.ast, (ast.If, ast.For, ast.While, ast.Try, ast.With)) else ast.Pass()):
+                if isinstance(a, ast.Attribute) and isinstance(a.value, ast.Name) and a.value.id in tainted and a.attr in ("default", "_inspect", "__get__") and isinstance(a.ctx, ast.Load):
+                    # on the branch where the subject is a class the lookup is the class-level one
+                    on_class = any(t is True and norm(e).replace(" ", "") in ("isinstance(cls_or_slf,type)", "isinstance(self_.self_or_cls,type)") for e, t in gcfg.conditions(n))
+                    if not on_class:
+                        bad.append(a)
+        if bad:
+            a = bad[0]
+            ctx.fail("R13.g", g, a, "`%s.%s` is read off a Parameter looked up with `%s`: on an instance this may be the per-instance copy, whose default is the one it was created with, while "
+                                    "attribute access goes through the class-level Parameter -- after a class-level set, values()/repr/serialization report a value getattr does not" % (
+                                        a.value.id, a.attr, tainted[a.value.id][:60]), key="%s::stale-instance-copy::%s" % (g.qualname, a.attr),
+                     input="p = P(); p.param.n; P.n = 5  ->  p.n == 5 but p.param.values()['n'] == <old default>")
+        else:
+            ctx.ok("R13.g", g, g.node, "the Parameter looked up in the instance namespace (%s) is only used to choose the route; the value comes from getattr, the value store or the class-level Parameter" % ", ".join(sorted(tainted)))
